@@ -178,7 +178,7 @@ class Interp:
             "any": PyFunc(lambda seq: any(self.truth(x) for x in list(seq)), "any", True),
             "all": PyFunc(lambda seq: all(self.truth(x) for x in list(seq)), "all", True), "hasattr": PyFunc(self._hasattr, "hasattr", True), "format": PyFunc(format, "format"),
             "bin": PyFunc(bin, "bin"), "hex": PyFunc(hex, "hex"), "set": PyFunc(self._set, "set", True),
-            "object": ClassRef("object"),
+            "object": ClassRef("object"), "slice": PyFunc(slice, "slice"), "Ellipsis": Ellipsis,
             "filter": PyFunc(lambda f, seq: [x for x in list(seq) if self.truth(self.call(f, [x], {}) if f is not None else x)], "filter", True),
             "map": PyFunc(lambda f, *seqs: [self.call(f, list(xs), {}) for xs in zip(*[list(q) for q in seqs])], "map", True), "iter": PyFunc(iter, "iter"), "next": PyFunc(next, "next"),
             "print": PyFunc(lambda *a, **k: None, "print", True),
@@ -552,7 +552,12 @@ class Interp:
                 if e.kind == "python" and isinstance(e.node, ast.FunctionDef) and any(
                         un(d) in ("cached_property", "property") for d in e.node.decorator_list):
                     if name in self.opaque_calls:
-                        return Unk(name)
+                        facts = getattr(self, "tvar_facts", {}).get(name, {})
+                        if len(v.terms) == 1:
+                            (w, c), = v.terms.items()
+                            if c == 1 and len(w) == 1 and w[0][0] == "v" and not w[0][2] and not w[0][3] and w[0][1] in facts:
+                                return facts[w[0][1]]
+                        return Obj("opaque-property", {"fmt": f"{name}({v!r})", "of": v.key(), "name": name})
                     return self.call_function(e.node, [v], {}, {}, self._module_of_cls(v.cls))
                 return Bound(v, name)
             if BLADE_RE.match(name):
@@ -563,6 +568,8 @@ class Interp:
         if isinstance(v, Obj):
             if name == "__class__":
                 return ClassRef(v.kind)
+            if name == "__dict__":
+                return v.attrs
             if name in v.attrs:
                 a = v.attrs[name]
                 return a() if callable(a) and not isinstance(a, (PyFunc, Closure, Bound, ClassRef, Obj, T)) else a
